@@ -1,11 +1,11 @@
 package h
 
 import (
-	"unsafe"
 	"fmt"
 	"runtime"
 	"sync"
 	"sync/atomic"
+	"unsafe"
 
 	"github.com/mlange-42/arche/ecs"
 	"github.com/mlange-42/arche/generic"
